@@ -132,7 +132,14 @@ class Scn:
             k = self.rng.choice(KINDS)[0]
             return {"name": name, "k": k, "v": pick(self.rng, k)}
         if r < 0.78:
-            return {"name": name, "k": "Tol", "v": self.rng.choice(DOUBLES), "tol": self.rng.choice(TOLERANCES)}
+            if self.rng.random() < 0.3:
+                return {"name": name, "k": "Tol", "v": self.rng.choice(DOUBLES), "tol": self.rng.choice(TOLERANCES)}
+            # value and tolerance chosen so that their ORDER matters: negative and zero expected values, |value| >> tolerance,
+            # actual values inside the tolerance, just outside it, and far off (but inside tolerance +- value)
+            v = self.rng.choice([-1000.0, -5.0, 0.0, 5.0, 1000.0, 1e6, -0.25])
+            tol = self.rng.choice([0.5, 0.0, 2.0, 1e-9, 0.5])
+            av = v + self.rng.choice([0.0, tol / 2, -tol / 2, 2 * tol + 1e-3, -(2 * tol + 1e-3), abs(v) / 2, -abs(v) / 2, 3.0])
+            return {"name": name, "k": "Tol", "v": dbits(v), "tol": dbits(tol), "av": dbits(av)}
         if r < 0.88:
             b = self.rng.choice(BUFFERS)
             return {"name": name, "k": "Buf", "v": b, "size": self.rng.choice([len(b), len(b), max(0, len(b) - 1)])}
@@ -172,7 +179,7 @@ class Scn:
     def emit_actual_param(self, p):
         k = p["k"]
         if k == "Tol":
-            self.op("A", "withDoubleParameters", hx(p["name"]), p["v"])
+            self.op("A", "withDoubleParameters", hx(p["name"]), p.get("av", p["v"]))
         elif k == "Buf":
             self.op("A", "withMemoryBufferParameter", hx(p["name"]), hx(p["v"]), p["size"])
         elif k == "Typed":
@@ -301,7 +308,7 @@ class Scn:
                 elif q["k"] == "Typed":
                     q["av"] = (q["v"] + 2) % 6 if q["v"] < 6 else q["av"]
                 else:
-                    q["v"] = dbits(12345.0)
+                    q["v"] = q["av"] = dbits(12345.0)
             if fault == "type" and p is params[0] and q["k"] in KIND:
                 q["k"] = rng.choice([k for k in KIND if k != q["k"]]); q["v"] = pick(rng, q["k"])
             if fault is None and q["k"] in INTEGER_KINDS and rng.random() < 0.15:
@@ -399,6 +406,44 @@ class Scn:
         return self.ops
 
 
+GETTER_FIELDS = set(["returnValue"] + ["%sReturnValue" % k[1] for k in KINDS])
+DEFAULT_FIELDS = set("return%sValueOrDefault" % k[0] for k in KINDS)
+
+
+def py_aligned(ops):
+    """replica of `MockC.Aligned` (lean/CppUModel/Spec/MockC.lean); the driver checks on every marked scenario that
+    the Lean predicate agrees"""
+    cur, act = None, None
+    for l in ops:
+        w = l.split()
+        if w[0] == "M0":
+            cur = ""
+        elif w[0] == "M" and len(w) == 2:
+            cur = "" if w[1] == "-" else w[1]
+        elif w[0] == "S" and len(w) >= 2:
+            f = w[1]
+            if f in GETTER_FIELDS or f in DEFAULT_FIELDS:
+                if act is None or act != cur:
+                    return False
+            if f in ("disable", "ignoreOtherCalls"):
+                return False
+            if f == "actualCall":
+                act = cur
+            elif f == "clear":
+                act = None
+        elif w[0] == "A" and len(w) >= 2:
+            if w[1] == "hasReturnValue" or w[1] in DEFAULT_FIELDS:
+                if act is None or act != cur:
+                    return False
+        elif w[0] not in ("E",):
+            return False
+    return True
+
+
+def mark(ops):
+    return (["P aligned"] + ops) if py_aligned(ops) else ops
+
+
 FAULTS = [None, "name", "value", "type", "missing", "extra", "unexpected", "notcalled", "outtype", "order"]
 
 
@@ -478,6 +523,46 @@ def sweep_cases():
         "S setDataObject 6f626a 4f626a o2", "S setDataConstObject 636f 4f626a o5", "S getData 6f626a", "S getData 636f",
         "S ignoreOtherCalls", "S actualCall 7a7a", "S disable", "S actualCall 7979", "S enable",
         "S checkExpectations", "S clear", "S removeAllComparatorsAndCopiers"]))
+    # expectNCalls with boundary counts, expectedCallsLeft before / between / after the calls
+    for n, made in [(0, 0), (0, 1), (1, 1), (2, 1), (2, 2), (3, 3), (4294967295, 2)]:
+        ops = ["M0", "S expectNCalls %d 66" % n, "E withUnsignedIntParameters 70 4294967295", "S expectedCallsLeft"]
+        for _ in range(made):
+            ops += ["S actualCall 66", "A withUnsignedIntParameters 70 4294967295", "S expectedCallsLeft"]
+        ops += ["S checkExpectations", "S expectedCallsLeft", "S clear", "S expectedCallsLeft"]
+        out.append(("sweep", ops))
+    # data store: every type incl. object pointers, overwritten with another type, read in the scope that owns it and in
+    # another scope (where the name is unknown)
+    for sc_set, sc_get in [("M0", "M 7331"), ("M 7331", "M0"), ("M 7331", "M 7332"), ("M0", "M0")]:
+        ops = [sc_set, "S setDataObject 6f626a 4f626a o2", "S setDataConstObject 636f 4f74686572 o7", "S setIntData 6e -2147483648",
+               "S setUnsignedIntData 75 4294967295", "S setBoolData 62 -1", "S setStringData 73 %s" % hx(b"text"),
+               "S setDoubleData 64 %s" % dbits(-0.0), "S setPointerData 70 18446744073709551615", "S setConstPointerData 6370 0",
+               "S setFunctionPointerData 6670 1", "S setStringData 6e %s" % hx(b"was an int")]
+        for name in ["6f626a", "636f", "6e", "75", "62", "73", "64", "70", "6370", "6670", "6d697373696e67"]:
+            ops += [sc_get, "S getData " + name, sc_set, "S getData " + name]
+        ops += ["M0", "S clear", sc_get, "S getData 6e"]
+        out.append(("sweep", ops))
+    # expectedCallsLeft / checkExpectations / clear across scopes: the global scope covers the named ones
+    for variant in range(8):
+        ops = ["M0", "S expectOneCall 67", "M 7331", "S expectOneCall 66", "E andReturnLongLongIntValue -9223372036854775808",
+               "M 7332", "S expectNCalls 2 66", "E andReturnUnsignedLongLongIntValue 18446744073709551615",
+               "M 7331", "S actualCall 66", "A longLongIntReturnValue", "S expectedCallsLeft", "M 7332", "S expectedCallsLeft",
+               "M0", "S expectedCallsLeft"]
+        if variant & 1:
+            ops += ["M 7332", "S actualCall 66", "A returnUnsignedLongLongIntValueOrDefault 0", "S actualCall 66",
+                    "S unsignedLongLongIntReturnValue"]
+        if variant & 2:
+            ops += ["M 7331", "S clear", "S expectedCallsLeft", "M0", "S expectedCallsLeft"]
+        if variant & 4:
+            ops += ["M0", "S actualCall 67"]
+        ops += [["M 7331", "M 7332", "M0"][variant % 3], "S checkExpectations", "M0", "S expectedCallsLeft", "S checkExpectations",
+                "S clear", "S expectedCallsLeft", "M 7332", "S expectedCallsLeft", "S checkExpectations"]
+        out.append(("sweep", ops))
+    # value and tolerance of withDoubleParametersAndTolerance are both doubles: scenarios whose verdict changes when the two
+    # are exchanged (negative / zero expected value, |value| >> tolerance with the actual far off)
+    for v, tol, a in [(1000.0, 0.5, 1000.25), (1000.0, 0.5, 600.0), (-5.0, 0.5, -5.0), (-5.0, 0.5, -5.75), (0.0, 0.5, 0.25),
+                      (0.0, 0.5, 0.75), (5.0, 2.0, 6.5), (5.0, 2.0, 2.5), (1e6, 1e-9, 1e6), (-1000.0, 2.0, -998.5), (0.25, 0.0, 0.25)]:
+        out.append(("sweep", ["M0", "S expectOneCall 66", "E withDoubleParametersAndTolerance 64 %s %s" % (dbits(v), dbits(tol)),
+                              "S actualCall 66", "A withDoubleParameters 64 %s" % dbits(a), "S checkExpectations", "S clear"]))
     # custom types: every pairing of plain / pattern objects on the expected and on the actual side (the comparator is
     # asymmetric), failure text with valueToString of both operands, copier from a plain and from a pattern object
     for e, a in [(6, 0), (0, 6), (7, 3), (3, 7), (6, 7), (0, 1), (1, 0), (0, 2), (2, 2), (6, 6)]:
@@ -537,8 +622,8 @@ def generate(rng, tier):
     out = []
     n = 500 if tier == "quick" else 8000
     for i in range(n):
-        out.append(("gen", gen_case(rng, rng.choice([1, 1, 2, 3]) if tier == "quick" else rng.choice([1, 2, 3, 5, 8]))))
-    out += sweep_cases()
+        out.append(("gen", mark(gen_case(rng, rng.choice([1, 1, 2, 3]) if tier == "quick" else rng.choice([1, 2, 3, 5, 8])))))
+    out += [(t, mark(ops)) for t, ops in sweep_cases()]
     for i in range(n // 12):
         out.append(("malformed", malformed_case(rng)))
     for i in range(n // 25):
@@ -591,6 +676,8 @@ def observe(r, rep):
         w = l.split()
         if len(w) >= 4 and w[0] == ">" and w[1] == "c" and w[3] in ("S", "E", "A") and len(w) >= 5:
             rep.count("entry.%s.%s" % (w[3], w[4]))
+        elif len(w) >= 5 and w[:2] == [">", "c"] and w[3:5] == ["P", "aligned"]:
+            rep.count("class.Aligned_syntactic")
         elif w[:2] == ["co", "verdict"]:
             failed = w[2] != "0"
             rep.count("verdict.failed" if failed else "verdict.passed")
